@@ -107,6 +107,9 @@ func VC18_Pack() {
 		maxLen = 128
 	}
 	l1, l2 := ndU8(), ndU8()
+	if f := vParam("l2"); f > 0 {
+		l2 = uint8(f) // one symbolic length only (large prefix sets)
+	}
 	vAssume(l1 <= maxLen && l2 <= maxLen)
 	pfxs := make([]*bnet.Prefix, n)
 	for i := 0; i < n; i++ {
